@@ -83,8 +83,21 @@ def run(chk):
     for ci in range(n_cases):
         kt = [types[ci % len(types)]] + [rng.choice(types) for _ in range(rng.choice([0, 1, 2]))]
         n = rng.choice([0, 1, 5, 30, 200])
+        tie_heavy = ci % 3 == 2
+        pools = None
+        if tie_heavy:
+            # layered ties: 2-4 keys, mostly variable-width ones (each adds a sort pass), each drawn from 2-3 values so that
+            # neighbouring groups of an earlier key repeat the values of the later keys
+            kt = [("TEXT" if rng.random() < 0.6 else rng.choice(types)) for _ in range(rng.choice([2, 3, 3, 4]))]
+            n = rng.choice([5, 12, 30, 200])
+            long_text = [v for v in VALS["TEXT"] if len(v.encode()) > 12]
+            pools = [rng.sample(long_text if (t == "TEXT" and rng.random() < 0.4) else [v for v in VALS[t] if v != "-0.0"], min(rng.choice([1, 2, 3]), len(VALS[t]))) for t in kt]
+            chk.count("tie-heavy multi-key tables")
         rows = []
         for i in range(n):
+            if pools is not None:
+                rows.append([i] + [None if rng.random() < 0.08 else rng.choice(pool) for pool in pools])
+                continue
             # -0.0 and +0.0 compare equal but the engine sorts them as distinct values; no rule is documented, so the two
             # zeros only meet in single-key tables (where either arrangement is sorted)
             rows.append([i] + [None if rng.random() < 0.12 else rng.choice([v for v in VALS[t] if not (v == "-0.0" and len(kt) > 1)]) for t in kt])
@@ -100,9 +113,9 @@ def run(chk):
         specs = []
         for _ in range(4):
             keys = []
-            for j in rng.sample(range(len(kt)), rng.randint(1, len(kt))):
+            for j in (rng.sample(range(len(kt)), len(kt)) if tie_heavy else rng.sample(range(len(kt)), rng.randint(1, len(kt)))):
                 keys.append((f"k{j}", rng.choice([None, False, True, True]), rng.choice([None, None, "first", "last"])))
-            if rng.random() < 0.3 and not (len(kt) == 1 and kt[0] in ("REAL", "DOUBLE")):
+            if rng.random() < (0.6 if tie_heavy else 0.3) and not (len(kt) == 1 and kt[0] in ("REAL", "DOUBLE")):
                 keys.append(("id", rng.choice([None, True]), None))
             oc = order_clause(keys)
             order = [(1 + (0 if col == "id" else 1 + int(col[1:])), d, nl, "ord") for (col, d, nl) in keys]
